@@ -124,3 +124,29 @@ Proof.
   - destruct (run O prog hp) as [[v|] n|]; try discriminate. intros H. eauto.
   - intros (v & n & -> & H). exact H.
 Qed.
+
+(* ---- which header the covenants of a block see: apply_batch hands them the header stored for the previous
+   height - the block the state was built on - and only a state without any stored parent (height 0) falls back
+   to the header of the state itself *)
+Section LastHeader.
+Variable SO : stf_oracle.
+Variable rf : wstate -> roots.
+
+Lemma last_header_is_the_parent s h :
+  s_history s !! (s_height s - 1) = Some h -> last_header_for SO rf s = Ok h.
+Proof. intros E. unfold last_header_for. rewrite E. reflexivity. Qed.
+
+Theorem apply_batch_uses_the_parent_header s h txs :
+  s_history s !! (s_height s - 1) = Some h -> apply_batch SO rf s txs = apply_tx_batch SO s h txs.
+Proof. intros E. unfold apply_batch. rewrite (last_header_is_the_parent s h E). reflexivity. Qed.
+
+(* ... and that is the header next_unsealed was given: the header of the block just sealed *)
+Theorem block_covenants_see_the_sealed_parent s hdr txs :
+  apply_batch SO rf (next_unsealed s hdr) txs = apply_tx_batch SO (next_unsealed s hdr) hdr txs.
+Proof.
+  apply apply_batch_uses_the_parent_header.
+  assert (E: s_height (next_unsealed s hdr) = s_height s + 1 /\ s_history (next_unsealed s hdr) !! s_height s = Some hdr).
+  { unfold next_unsealed. cbn zeta. destruct (_ && _); cbn; (split; [reflexivity|apply lookup_insert]). }
+  destruct E as [E1 E2]. rewrite E1. replace (s_height s + 1 - 1) with (s_height s) by lia. exact E2.
+Qed.
+End LastHeader.
